@@ -12,7 +12,7 @@ import tempfile
 
 from .. import common
 from .. import gen_text as gt
-from ..gen_values import gen_module, gen_config, make_encoder
+from ..gen_values import gen_module, gen_config, make_encoder, strict_parser
 from ..normalise import compare, Rules, snapshot
 from ..textrun import load
 from ..trace import traced_parser
@@ -59,19 +59,23 @@ def tails(rng, tier, label_len):
     yield "undecodable-at-buffer-boundary", b" " * pad + b"\xff\x00\xfe" + b"x" * 20
 
 
-def routes(pvl, path, data, tail_decodable):
-    """name -> callable returning a module"""
+def routes(pvl, path, data, tail_decodable, mk=None):
+    """name -> callable returning a module; *mk* builds a fresh parser for the
+    strict-dialect cases (None: the default loader, no parser argument)."""
+    kw = (lambda: {}) if mk is None else (lambda: {"parser": mk()})
     r = {
-        "load(str path)": lambda: pvl.load(str(path)),
-        "load(Path)": lambda: pvl.load(pathlib.Path(path)),
-        "loadu(file URL)": lambda: pvl.loadu(pathlib.Path(path).as_uri()),
-        "load(text stream)": lambda: _with(open(path, "r"), pvl.load),
-        "load(binary stream)": lambda: _with(open(path, "rb"), pvl.load),
-        "load(BytesIO)": lambda: pvl.load(io.BytesIO(data)),
-        "loads(bytes)": lambda: pvl.loads(data),
+        "load(str path)": lambda: pvl.load(str(path), **kw()),
+        "load(Path)": lambda: pvl.load(pathlib.Path(path), **kw()),
+        "loadu(file URL)": lambda: pvl.loadu(pathlib.Path(path).as_uri(), **kw()),
+        "load(text stream)": lambda: _with(open(path, "r"),
+                                           lambda f: pvl.load(f, **kw())),
+        "load(binary stream)": lambda: _with(open(path, "rb"),
+                                             lambda f: pvl.load(f, **kw())),
+        "load(BytesIO)": lambda: pvl.load(io.BytesIO(data), **kw()),
+        "loads(bytes)": lambda: pvl.loads(data, **kw()),
     }
     if tail_decodable:
-        r["loads(str)"] = lambda: pvl.loads(data.decode("utf-8"))
+        r["loads(str)"] = lambda: pvl.loads(data.decode("utf-8"), **kw())
     return r
 
 
@@ -80,9 +84,9 @@ def _with(f, fn):
         return fn(f)
 
 
-def gen_label(rng, non_ascii):
+def gen_label(rng, non_ascii, reader="default"):
     while True:
-        doc = gt.gen_document(rng, "default", max_top=4)
+        doc = gt.gen_document(rng, reader, max_top=4)
         if any(c == "seq-inside-set" for c, _ in doc.meta):
             continue
         toks = list(doc.tokens)
@@ -91,21 +95,39 @@ def gen_label(rng, non_ascii):
         if toks[-1].kind != gt.END:
             toks.append(gt.Tok(gt.END, "END"))
         text = gt.render(toks, gt.plain_layout(toks)).rstrip("\n")
+        if not text.endswith("END"):
+            continue
+        inside = None
+        if rng.random() < 0.25:
+            # a line that reads END inside a quoted string or a comment is not
+            # the End Statement
+            inside = rng.choice(('note = "page one\nEND\npage two"\n',
+                                 '/* superseded label:\nEND\n*/\n',
+                                 'note = "x\n  end  \ny"\n/* c\nEnd\n */\n'))
+            text = text[:-3] + inside + "END"
         if non_ascii:
-            text = text.replace("END", 'note = "café Δv µm €"\nEND', 1) \
-                if text.endswith("END") else text
-            text = 'first = "éè 中文"\n' + text
-        return text, toks
+            extra = 'note2 = "café Δv µm €"\nEND' if reader == "default" else \
+                'note2 = "café µm"\nEND'
+            text = text[:-3] + extra
+            text = ('first = "éè 中文"\n' if reader == "default" else
+                    'first = "éè"\n') + text
+        return text, toks, inside is not None
 
 
 def label_case(rec, pvl, key, tier, tmp, holder):
     rng = random.Random(key)
-    non_ascii = rng.random() < 0.25
-    text, toks = gen_label(rng, non_ascii)
-    st, base = load(pvl, "default", text, parser=pvl.parser.OmniParser())
+    reader = rng.choice(("default", "default", "default", "PVL", "ODL", "PDS3", "ISIS"))
+    non_ascii = rng.random() < 0.25 and reader in ("default", "PVL", "ISIS")
+    text, toks, end_inside = gen_label(rng, non_ascii, reader)
+    mk = None if reader == "default" else (lambda: strict_parser(pvl, reader))
+    st, base = load(pvl, reader, text,
+                    parser=pvl.parser.OmniParser() if mk is None else mk())
     if st != "ok":
         rec.count("label_not_loadable")
         return
+    rec.count(f"reader[{reader}]")
+    if end_inside:
+        rec.count("labels_with_END_line_inside_string_or_comment")
     base_snap = snapshot(base)
     label_bytes = text.encode("utf-8")
     tail_iter = [("none", b"")] if non_ascii else list(tails(rng, tier, len(label_bytes)))
@@ -113,6 +135,13 @@ def label_case(rec, pvl, key, tier, tmp, holder):
         sep = rng.choice((b"\n", b"\r\n", b" ", b";", b";\n", b" /* end of label */\n",
                           b"\n/* image data follows */", b" # end\n", b"; /* c */ ")) \
             if tail or rng.random() < 0.5 else b""
+        if reader != "default" and rng.random() < 0.3 and \
+                tname in ("utf8-text", "high-bytes-first") + \
+                (("nuls",) if reader in ("PVL", "ISIS") else ()):
+            # the data starts right behind END with a character the dialect
+            # forbids (so it cannot be part of the END token)
+            sep = b""
+            rec.count("data_directly_behind_END")
         data = label_bytes + sep + tail
         path = os.path.join(tmp, "label.lbl")
         with open(path, "wb") as f:
@@ -127,12 +156,14 @@ def label_case(rec, pvl, key, tier, tmp, holder):
                          "label": text[:200], "non_ascii": non_ascii}
                  if rec.c["evaluations"] % 211 == 0 else None)
         rec.count(f"tail[{tname}]")
-        for rname, fn in routes(pvl, path, data, decodable).items():
+        for rname, fn in routes(pvl, path, data, decodable, mk).items():
             rec.count(f"route[{rname}]")
             feats = {"route": rname, "tail": tname, "non_ascii_label": non_ascii,
-                     "tail_is_valid_utf8": decodable}
+                     "tail_is_valid_utf8": decodable, "reader": reader,
+                     "END_line_inside_string_or_comment": end_inside,
+                     "data_directly_behind_END": bool(tail) and not sep}
             wit = {"seed": key, "label": text, "sep": repr(sep), "tail_class": tname,
-                   "tail_len": len(tail), "route": rname}
+                   "tail_len": len(tail), "route": rname, "reader": reader}
             try:
                 with common.cpu_limit(120):
                     m = fn()
@@ -140,22 +171,22 @@ def label_case(rec, pvl, key, tier, tmp, holder):
                 rec.inconc(f"CPU budget exceeded in {rname} ({tname})")
                 continue
             except Exception as e:
-                rec.violation(CHECK, "default", "entry-point-raised",
+                rec.violation(CHECK, reader, "entry-point-raised",
                               {**feats, "exc": type(e).__name__}, wit,
                               f"{type(e).__name__}: {e}"[:300])
                 continue
             if snapshot(m) != base_snap or getattr(m, "errors", []) != \
                     getattr(base, "errors", []):
                 d = compare(base, m, EXACT)
-                rec.violation(CHECK, "default", "entry-point-differs-from-loads",
+                rec.violation(CHECK, reader, "entry-point-differs-from-loads",
                               feats, wit, f"{d}: got {[k for k, _ in list(m)]} "
                                           f"for {[k for k, _ in list(base)]}"[:300])
         # trace monitor on the decodable tails (a str can be handed to the parser)
         if decodable or True:
             s = label_bytes.decode("utf-8") + sep.decode("ascii") + \
                 tail.decode("utf-8", errors="replace")
-            p = traced_parser(pvl, "default", holder)
-            st2, m2 = load(pvl, "default", s, parser=p, cpu=120)
+            p = traced_parser(pvl, reader, holder)
+            st2, m2 = load(pvl, reader, s, parser=p, cpu=120)
             tr = holder.get("trace")
             rec.count("trace_runs")
             if st2 == "ok" and tr is not None and tr.fresh:
@@ -174,9 +205,10 @@ def label_case(rec, pvl, key, tier, tmp, holder):
                 if tr.eof and (tail.strip() or sep.strip(b" \r\n")):
                     problems.append("the lexer ran to the end of the text")
                 if problems:
-                    rec.violation(CHECK, "default", "tokens-requested-after-END",
-                                  {"tail": tname}, {"seed": key, "label": text,
-                                                    "tail_class": tname},
+                    rec.violation(CHECK, reader, "tokens-requested-after-END",
+                                  {"tail": tname, "reader": reader},
+                                  {"seed": key, "label": text, "tail_class": tname,
+                                   "reader": reader},
                                   "; ".join(problems))
                 else:
                     rec.count("no_token_after_END_confirmed")
